@@ -172,6 +172,7 @@ struct C06 : Prop {
 		log_pos = 0; ops_seen = 0; modelling = false; receiver = -1; overflows = pops = concurrent_pops = state_consumed = 0;
 		for (int i = 0; i < 4; i++) dest_count[i] = 0;
 		debug = !e.plan.getb("normal");
+		sim::lockset_arm(false); sim::lockset_reset_counters();
 		g_lock_log = &lock_log;
 		sim::hooks().on_lock = lock_hook;
 		e.bus.on_delivered = [this](bus::UpFrame &f) {
@@ -185,13 +186,14 @@ struct C06 : Prop {
 			}
 		};
 	}
-	void on_session_start(Engine &, int, int) override {
+	void on_session_start(Engine &, int, int ret) override {
+		sim::lockset_arm(ret == 0);
 		const auto &names = sim::lock_names();
 		static const char *qn[3] = {"bidib_uplink_queue_mutex", "bidib_uplink_error_queue_mutex", "bidib_uplink_intern_queue_mutex"};
 		for (int i = 0; i < 3; i++) for (size_t k = 0; k < names.size(); k++) if (names[k] == qn[i]) g_q_ids[i] = (int) k;
 		for (int i = 0; i < sim::task_count(); i++) if (sim::task(i)->name.find("bidib_auto_receive") != std::string::npos) receiver = i;
 	}
-	void before_stop(Engine &, int) override { modelling = false; g_lock_log = nullptr; sim::hooks().on_lock = nullptr; }
+	void before_stop(Engine &, int) override { sim::lockset_arm(false); modelling = false; g_lock_log = nullptr; sim::hooks().on_lock = nullptr; }
 
 	void after_op(Engine &e, OpRec &o) override {
 		(void) e;
@@ -252,6 +254,7 @@ struct C06 : Prop {
 		f.set("nontrivial", overflows > 0 || conc > 0);
 		f.set("shape", (long long) (pc::shape_hash(e.plan) >> 1));
 		J p = J::obj();
+		p.set("glib_container_lockset_checks", (long long) sim::lockset_checks());
 		p.set("overflow_drops", (long long) overflows); p.set("pops_checked", (long long) pops); p.set("runs_with_concurrent_pops", (long long) conc);
 		p.set("to_state", (long long) dest_count[0]); p.set("to_message_queue", (long long) dest_count[1]); p.set("to_error_queue", (long long) dest_count[2]); p.set("to_intern_queue", (long long) dest_count[3]);
 		p.set("normal_mode_runs", debug ? 0 : 1); p.set("debug_mode_runs", debug ? 1 : 0);
